@@ -93,3 +93,6 @@ add('C42','model_checking','exhaustive enumeration of block-result histories x e
 add('C40','model_checking','explicit-state search to the fixpoint over keybase operations on the real in-memory and on-disk keybase vs a map model, plus exhaustive key x passphrase x armor-mutation enumeration on the real armor code',
  'Keybase: all operation sequences over 2 fixed + 1 created key x 2 passphrases until no new state appears (27 states), every operation result and in every state List/Get/Export under every passphrase/Sign compared with the model. Armor: 3 keys x 8 passphrases pairwise (right one opens, every other fails) and 19 armor mutations never yield another key.',
  'Passphrase/key alphabets are small because scrypt runs unmodified (80 ms per derivation); coinbase cache not part of the model.')
+add('C38','model_checking','exhaustive deviation-bounded enumeration (all combinations of up to 2/3 non-typical leaf values) of 29 message/state/parameter types through every real encode/decode path, plus all field-order permutations for sign bytes',
+ 'Reflective generator: every leaf field has a typical value and 2-5 alternatives (empty, maximal, nil vs empty, multi-element, unicode, key kinds, multisig, proof kinds, every message in StdTx); each selected value goes through current and legacy binary codec, JSON and the real keeper storage paths and must decode to an equal value; sign bytes are identical for every field order and every delegator insertion order.',
+ 'Deviation bound 2 (quick) / 3 (thorough); alternatives per leaf are finite lists; invalid states (nil stake key, unnamed module account) excluded.')
